@@ -72,6 +72,7 @@ func ruleResolveSwitch(w *World, r *Report, rSingleton, rScoped, rTransient stri
 	}
 	sw := sws[0]
 	ev := withStoreGens(trackingEvents(w, ro), w, ro)
+	ev.Stop = ro.isCreate // the creation chain is checked on its own (ruleCreateChain)
 	type region struct {
 		fl   *Flow
 		may  Facts
@@ -153,7 +154,7 @@ func ruleResolveSwitch(w *World, r *Report, rSingleton, rScoped, rTransient stri
 			created := false
 			for _, n := range fl.Nodes() {
 				for _, c := range callsIn(n, false) {
-					if callee(info, c) == ro.createInstance.Obj {
+					if ro.isCreate(callee(info, c)) {
 						created = true
 						missed := false
 						for k := range sol.Before[n] {
@@ -229,7 +230,7 @@ func ruleResolveSwitch(w *World, r *Report, rSingleton, rScoped, rTransient stri
 				}
 				okRet := false
 				if len(ex.Ret.Results) == 1 {
-					if c, ok := unparen(ex.Ret.Results[0]).(*ast.CallExpr); ok && callee(info, c) == ro.createInstance.Obj {
+					if c, ok := unparen(ex.Ret.Results[0]).(*ast.CallExpr); ok && ro.isCreate(callee(info, c)) {
 						okRet = true
 					}
 				}
@@ -237,7 +238,7 @@ func ruleResolveSwitch(w *World, r *Report, rSingleton, rScoped, rTransient stri
 					// instance, err := createInstance(); return instance, err / return nil, err
 					okRet = rg.must.AtExit(ex).Has("call:createInstance") || fl.Solve(Spec{Must: true, Node: func(n ast.Node, in Facts) (gen, kill []string) {
 						for _, c := range callsIn(n, false) {
-							if callee(info, c) == ro.createInstance.Obj {
+							if ro.isCreate(callee(info, c)) {
 								gen = append(gen, "created")
 							}
 						}
@@ -371,7 +372,7 @@ func ruleCreateCallSites(w *World, r *Report, rule string) {
 	for _, fi := range w.FuncsOf(w.Godi) {
 		info := fi.Pkg.TypesInfo
 		for _, c := range callsIn(fi.Decl.Body, true) {
-			if callee(info, c) != ro.createInstance.Obj {
+			if !ro.isCreate(callee(info, c)) {
 				continue
 			}
 			n++
@@ -383,8 +384,11 @@ func ruleCreateCallSites(w *World, r *Report, rule string) {
 	// eager creation: guarded by Lifetime != Singleton -> continue and by already-present -> continue on a from-descriptor key
 	fi := ro.createAll
 	for _, f := range w.Within(ro.createAll, 3) {
+		if ro.creators[f.Obj] || recvIs(f, "scope") {
+			continue
+		}
 		for _, c := range callsIn(f.Decl.Body, true) {
-			if callee(f.Pkg.TypesInfo, c) == ro.createInstance.Obj {
+			if ro.isCreate(callee(f.Pkg.TypesInfo, c)) {
 				fi = f // the function that holds the call (eager creation itself or a private helper of it)
 			}
 		}
@@ -419,7 +423,7 @@ func ruleCreateCallSites(w *World, r *Report, rule string) {
 	}})
 	for _, nd := range fl.Nodes() {
 		for _, c := range callsIn(nd, false) {
-			if callee(info, c) != ro.createInstance.Obj || len(c.Args) != 1 {
+			if !ro.isCreate(callee(info, c)) || len(c.Args) != 1 {
 				continue
 			}
 			d := exprStr(c.Args[0])
@@ -790,6 +794,7 @@ func ruleGroupOrder(w *World, r *Report, rule string) {
 func ruleFieldFilters(w *World, r *Report, rule string) {
 	sibs := []string{"(*Analyzer).analyzeParamObject", "(*ParamObjectBuilder).BuildParamObject", "(*Analyzer).analyzeResultObject", "(*ResultObjectProcessor).ProcessResultObject"}
 	type res struct{ unexported, embedded, ignore bool }
+	skipPreds := map[string][]string{}
 	for _, name := range sibs {
 		fi := w.MustFn(w.Refl, name)
 		r.Analysed(fi)
@@ -858,7 +863,43 @@ func ruleFieldFilters(w *World, r *Report, rule string) {
 			}
 		}
 		r.Check(bad == "", rule, fi.Name()+"#use-after-guards", loop.Pos(), true, "fields are only touched after the three skip guards", bad)
-		_ = info
+		// normalised skip predicates, for the pairwise comparison below
+		var preds []string
+		for _, st := range loop.Body.List {
+			ifs, ok := st.(*ast.IfStmt)
+			if !ok || len(ifs.Body.List) != 1 {
+				continue
+			}
+			if b, ok := ifs.Body.List[0].(*ast.BranchStmt); ok && b.Tok == token.CONTINUE {
+				preds = append(preds, normExpr(info, ifs.Cond))
+			}
+		}
+		sort.Strings(preds)
+		skipPreds[name] = preds
+	}
+	for _, pair := range [][2]string{{sibs[0], sibs[1]}, {sibs[2], sibs[3]}} {
+		a, b := skipPreds[pair[0]], skipPreds[pair[1]]
+		// the runtime walkers have extra value-level skips (invalid / nil values); compare the
+		// predicates that only look at the field declaration and its tags
+		static := func(ps []string) []string {
+			var out []string
+			for _, p := range ps {
+				if strings.Contains(p, "StructField") || strings.Contains(p, "TagInfo") {
+					out = append(out, p)
+				}
+			}
+			return out
+		}
+		sa, sb := static(a), static(b)
+		same := len(sa) == len(sb)
+		for i := 0; same && i < len(sa); i++ {
+			if sa[i] != sb[i] {
+				same = false
+			}
+		}
+		r.Check(same, rule, "siblings("+pair[0]+","+pair[1]+")#same-skip-predicates", token.NoPos, true,
+			"the analysis and the runtime walk of the same struct skip exactly the same fields",
+			fmt.Sprintf("the analysis skips fields on %v but the runtime walk on %v: a field the runtime injects/extracts is invisible to the dependency list (cycle, lifetime and presence validation, creation order), or vice versa", sa, sb))
 	}
 	// tag -> (group, name, plain) dispatch order in the two resolvers
 	for _, name := range []string{"(*ConstructorInvoker).resolveParameter", "(*ParamObjectBuilder).resolveFieldDependency"} {
@@ -991,7 +1032,7 @@ func ruleInitializersOnce(w *World, r *Report, rule string) {
 	rinfo := ri.Pkg.TypesInfo
 	calls := 0
 	for _, c := range callsIn(ri.Decl.Body, true) {
-		if callee(rinfo, c) == ro.createInstance.Obj {
+		if ro.isCreate(callee(rinfo, c)) {
 			calls++
 		}
 	}
@@ -1098,5 +1139,91 @@ func ruleLifetimeTableComplete(w *World, r *Report, rule string) {
 			o.Rule = rule
 			r.Obs = append(r.Obs, o)
 		}
+	}
+}
+
+// normExpr renders an expression with every local variable replaced by the
+// name of its type, so that two functions using different variable names for
+// the same things yield the same text.
+func normExpr(info *types.Info, e ast.Expr) string {
+	switch x := e.(type) {
+	case *ast.ParenExpr:
+		return "(" + normExpr(info, x.X) + ")"
+	case *ast.Ident:
+		if v, ok := info.Uses[x].(*types.Var); ok && !v.IsField() && v.Parent() != nil && v.Parent() != v.Pkg().Scope() {
+			if n := namedOf(v.Type()); n != nil {
+				return n.Obj().Name()
+			}
+			return v.Type().String()
+		}
+		return x.Name
+	case *ast.SelectorExpr:
+		return normExpr(info, x.X) + "." + x.Sel.Name
+	case *ast.UnaryExpr:
+		return x.Op.String() + normExpr(info, x.X)
+	case *ast.BinaryExpr:
+		return normExpr(info, x.X) + " " + x.Op.String() + " " + normExpr(info, x.Y)
+	case *ast.CallExpr:
+		var args []string
+		for _, a := range x.Args {
+			args = append(args, normExpr(info, a))
+		}
+		return normExpr(info, x.Fun) + "(" + strings.Join(args, ", ") + ")"
+	}
+	return exprStr(e)
+}
+
+// ruleCreateChain: R03.5. Wrappers between resolve and the constructing core
+// (single-flight, instrumentation, ...) may short-cut only for lifetimes other
+// than Transient: every exit of a wrapper that does not return the outcome of a
+// call further down the chain must be dominated by a fact that excludes
+// Transient (Lifetime == Scoped/Singleton, Lifetime != Transient, IsInstance).
+func ruleCreateChain(w *World, r *Report, rule string) {
+	ro := resolveRoles(w)
+	n := 0
+	for _, fi := range w.FuncsOf(w.Godi) {
+		if !ro.creators[fi.Obj] || fi == ro.createInstance {
+			continue
+		}
+		r.Analysed(fi)
+		info := fi.Pkg.TypesInfo
+		fl := w.FlowOf(fi)
+		sol := fl.Solve(Spec{Must: true,
+			Node: func(nd ast.Node, in Facts) (gen, kill []string) {
+				for _, c := range callsIn(nd, false) {
+					if ro.isCreate(callee(info, c)) {
+						gen = append(gen, "created")
+					}
+				}
+				return
+			},
+			Edge: condEdge(w, info, 1)})
+		for _, ex := range fl.Exits() {
+			if ex.Panic || ex.Ret == nil {
+				continue
+			}
+			n++
+			con := fmt.Sprintf("%s#exit/%d", fi.Name(), n)
+			at := sol.AtExit(ex)
+			direct := false
+			if len(ex.Ret.Results) == 1 {
+				if c, ok := unparen(ex.Ret.Results[0]).(*ast.CallExpr); ok && ro.isCreate(callee(info, c)) {
+					direct = true
+				}
+			}
+			excl := false
+			for k := range at {
+				if strings.HasSuffix(k, ".Lifetime==Scoped") || strings.HasSuffix(k, ".Lifetime==Singleton") || strings.HasSuffix(k, ".Lifetime!=Transient") || strings.HasSuffix(k, ".IsInstance=true") {
+					excl = true
+				}
+			}
+			isErr := len(ex.Ret.Results) == 2 && isNilIdent(info, ex.Ret.Results[0]) && !isNilIdent(info, ex.Ret.Results[1])
+			r.Check(direct || at.Has("created") || excl || isErr, rule, con, ex.Pos, true,
+				"the wrapper returns what a call further down the creation chain produced on this path, or the path excludes transient services",
+				fi.Name()+" can return an instance that was not produced by this call on a path that transient services take too: concurrent or repeated requests for a transient share one instance")
+		}
+	}
+	if n == 0 {
+		r.OK(rule, "creation-chain#no-wrappers", ro.createInstance.Decl.Pos(), false, "resolve calls the constructing function directly")
 	}
 }
